@@ -47,6 +47,17 @@ def check_run(ctx: Ctx, spec, cer, soll, im) -> None:
         ctx.count("outcome", im["err"])
         if im["err"] != "NotImplementedError":
             ctx.violation(f"validation aborts with {im['err']}", rep({}), key=f"abort:{im['err']}")
+            return
+        # the only documented reason to abort: some node's own outcome is undetermined under MUSS / a prefix operator / SOLL read as MUSS
+        # (or its evaluation itself raises, e.g. an unknown package)
+        justified = False
+        for kind, node, parent in nodes:
+            for x, inp in ([(e["expr"], None) for e in node["entries"]] if kind == "pool" else [(node["expr"], node.get("input"))]):
+                ev = V.eval_node_expr(V.expr_text(x), cer, inp)
+                if "raises" in ev or (kind != "pool" and ev.get("fulfilled", 0) is None and (ev["ind"] in ("MUSS", "X", "O", "U") or (ev["ind"] == "SOLL" and soll))):
+                    justified = True
+        if not justified:
+            ctx.violation("validation aborts with NotImplementedError although no node has an undetermined outcome under MUSS / prefix operator / SOLL-as-MUSS", rep({}), key="abort:unjustified")
         return
     ctx.count("outcome", "results")
     res = im["results"]
